@@ -21,8 +21,8 @@ Over the heap abstraction of `DK/Model/History.lean`:
   next call `op`, the output after `h` equals the output of the same call on a fresh twin.
 * `history_caller_untouched`: after every history the caller cells and the user dict cells are
   those of the fresh construction.
-* `prefix_not_stateless` (+ the explicit witnesses): with the pre-fix `MFDeviceSet.constraints`
-  (`stepPre`) the statement is FALSE — `[readConstraints mf]` then `callFun 0` on the wrapped device.
+* `prefix_not_stateless` (+ the explicit witnesses): with the tree before fixes d6b8232 / 0f214fb (`stepPre`:
+  the getter returns the stored dict objects and `MFDeviceSet.constraints` rewrites them) the statement is FALSE — `[readConstraints mf]` then `callFun 0` on the wrapped device.
 -/
 namespace DK.History
 
@@ -339,13 +339,21 @@ example : Inv exW (run (step exW) [.deriv 0 [1], .cacheClear, .cost 5 [1], .part
 example : (run (step exW) [.deriv 0 [1]] exW.init).dcache = [some (.derivOf 0)] ∧ exW.init.dcache = [none] := by decide
 example : (run (step exW) [.cacheClear, .cost 5 [1]] exW.init).mats.length = 4 ∧ exW.init.mats.length = 2 := by decide
 
-/-- with the code as it is, reading the adaptor's constraints leaves the wrapped device's cell alone … -/
+/-- with the code as it is, reading the adaptor's constraints leaves the wrapped device's cell alone: the wrapped
+device's own constraint 0 is still (a fresh reshaping wrapper, fix 0f214fb, around) the caller's closure, and the
+stored cells are those of the fresh construction.  (Before 0f214fb the getter returned the stored dict itself and
+this read `= some (.user 0)`; that cell-identity claim is now simply false.) -/
 theorem fixed_witness :
     (step exW (run (step exW) [.readConstraints 1, .readConstraints 1] exW.init) (.callFun 4 0 [])).2.closure
-      = some (.user 0) := by decide
+      = some (.wrapVec (.user 0)) ∧
+    (run (step exW) [.readConstraints 1, .readConstraints 1] exW.init).dicts = exW.init.dicts := by decide
 
 /-- … and the adaptor itself hands out a wrapped *copy*. -/
-example : (step exW exW.init (.callFun 1 1 [])).2.closure = some (.wrapSum (.user 0)) := by decide
+example : (step exW exW.init (.callFun 1 1 [])).2.closure = some (.wrapSum (.wrapVec (.user 0))) := by decide
+
+/-- `to_dict()` still shows the caller's own closure in the stored cell. -/
+example : ((step exW (run (step exW) [.readConstraints 1, .readConstraints 4] exW.init) (.toDict 4)).2.cons.map (·.fn))
+    = [.user 0] := by decide
 
 /-- **pre-fix behaviour, explicit**: after ONE read of the adaptor's constraints the wrapped device's own
 constraint 0 is no longer the caller's closure but the adaptor's wrapper around it; after two reads it is
